@@ -41,13 +41,16 @@ Next == NextV \/ NextKey \/ Rotate
 Spec == Init /\ [][Next]_<<v, ka, kb, ep>>
 
 Idx == -1..(MaxV + 1)
-InvWidth     == LET w == Width(v) IN w * w <= v /\ (w + 1) * (w + 1) > v
-InvIrrefl    == \A a \in Idx : ~N(v, a, a)
-InvSym       == \A a, b \in Idx : N(v, a, b) <=> N(v, b, a)
-InvInSet     == \A a, b \in Idx : N(v, a, b) => InSet(v, a) /\ InSet(v, b)
-InvExact     == \A a \in Idx : Nbrs(v, a) = GridNbrs(v, a)
+\* each invariant is evaluated on the walk it speaks about (the other walks keep v = 0 / the base keys)
+GridWalk == ka = K0 /\ kb = K0 /\ ep = <<0, 0, 0>>
+PosWalk  == v = 0 /\ ka = K0 /\ kb = K0
+InvWidth     == GridWalk => LET w == Width(v) IN w * w <= v /\ (w + 1) * (w + 1) > v
+InvIrrefl    == GridWalk => \A a \in Idx : ~N(v, a, a)
+InvSym       == GridWalk => \A a, b \in Idx : N(v, a, b) <=> N(v, b, a)
+InvInSet     == GridWalk => \A a, b \in Idx : N(v, a, b) => InSet(v, a) /\ InSet(v, b)
+InvExact     == GridWalk => \A a \in Idx : Nbrs(v, a) = GridNbrs(v, a)
 \* every validator has all of its row and column: degree = |row| + |column| - 2
-InvDegree    == \A a \in 0..(v - 1) :
+InvDegree    == GridWalk => \A a \in 0..(v - 1) :
                   LET W == Width(v)
                       rowlen == Min2(W, v - (a \div W) * W)
                       collen == Cardinality({b \in 0..(v - 1) : b % W = a % W})
@@ -56,6 +59,6 @@ InvPSym      == P(ka, kb) = P(kb, ka)
 InvPMember   == P(ka, kb) \in {ka, kb}
 SizeOf(e) == ep[e + 2]
 Positions == {<<e, i>> : e \in {-1, 0, 1}, i \in -1..(MaxE + 1)}
-InvPosSym    == \A p, q \in Positions : PosRel(SizeOf, p, q) <=> PosRel(SizeOf, q, p)
-InvPosIrrefl == \A p \in Positions : ~PosRel(SizeOf, p, p)
+InvPosSym    == PosWalk => \A p, q \in Positions : PosRel(SizeOf, p, q) <=> PosRel(SizeOf, q, p)
+InvPosIrrefl == PosWalk => \A p \in Positions : ~PosRel(SizeOf, p, p)
 =============================================================================
